@@ -1,1 +1,8 @@
 import PysamlModel.Props.C05
+#print axioms C05.C05_windows
+#print axioms C05.C05_expired
+#print axioms C05.C05_premature
+#print axioms C05.C05_inverted
+#print axioms C05.C05_stale_instant
+#print axioms C05.C05_reported_expiry
+#print axioms C05.C05_model_meets_spec_sound
